@@ -34,7 +34,7 @@ def main (args : List String) : IO UInt32 := do
   let stdout ← IO.getStdout
   match args with
   | ["memfile"] => loop stdin stdout Engine.MemFile.stepLine Engine.MemFile.init; return 0
-  | ["contains"] => loop stdin stdout Engine.Contains.stepLine (); return 0
+  | ["contains"] => loop stdin stdout Engine.Contains.stepLine {}; return 0
   | ["path"] => loop stdin stdout Engine.Path.stepLine (); return 0
   | ["memfs"] => loop stdin stdout Engine.MemFs.stepLine MemFs.init; return 0
   | ["rofs"] => loop stdin stdout Engine.RoFs.stepLine {}; return 0
